@@ -373,6 +373,10 @@ class Prop:
         and specification talk about (identity by default).  Applied before any comparison."""
         return impl
 
+    def project_all(self, lines, impls):
+        """Batch form of `project` (override when the projection needs one external call for all lines)."""
+        return [self.project(l, o) for l, o in zip(lines, impls)]
+
     def klass(self, line, impl):
         return impl.split(" ")[0] if impl else "empty"
 
@@ -500,7 +504,7 @@ def run_check(prop, tier, seed):
                          % (budget, len(lines) - len(kept), len(lines)))
             lines = [lines[i] for i in kept]
             raw = [raw[i] for i in kept]
-        impl = [prop.project(l, o) for l, o in zip(lines, raw)]
+        impl = prop.project_all(lines, raw)
         if ok_drv:
             model, spec = run_model(lines)
         else:
@@ -543,13 +547,13 @@ def run_check(prop, tier, seed):
 
         def still(c):
             try:
-                im = prop.project(c, run_impl([c])[0])
+                im = prop.project_all([c], [run_impl([c])[0]])[0]
                 mo, sp = run_model([c])
                 return not spec_match(sp[0], im)
             except Exception:
                 return False
         small = shrink(prop, lines[i], still) if ok_drv else lines[i]
-        im = prop.project(small, run_impl([small])[0])
+        im = prop.project_all([small], [run_impl([small])[0]])[0]
         mo, sp = (run_model([small]) if ok_drv else (["?"], ["?"]))
         f2 = finding_for(prop.id, small, mo[0], findings)
         if f2 is not None and im == untag(mo[0]):
@@ -640,7 +644,7 @@ def replay(path, props):
     if "case" in data and okd and okh:
         c = data["case"]
         raw = run_impl([c])[0]
-        im = prop.project(c, raw)
+        im = prop.project_all([c], [raw])[0]
         mo, sp = run_model([c])
         print("case : " + c)
         if raw != im:
